@@ -277,11 +277,14 @@ def lazy_parallel_map(
                 yield result(q.get())
             if generator_exception is not None:
                 raise generator_exception
-        except GeneratorExit:
+        except BaseException:
             # A GeneratorExit will not stop the PoolExecutor,
             # i.e. the PoolExecutor will finish all calculations,
             # before the PoolExecutor stops. This could take some time
             # and is useless.
+            # The same holds when an exception is raised to the consumer:
+            # The pathos pool ('mp') even continues with the queued
+            # calculations after the exception has left this function.
             terminate(executor, q)
             raise
 
